@@ -120,6 +120,38 @@ func verifyUnitRepair(ld *Loader, db *ContractDB, specs *SpecLib, u *Unit, prop 
 	if len(names) > 12 {
 		names = names[:12]
 	}
+	// a discarded result may survive as the length of a slice the code still holds
+	// (rank, node := mkNode(..) rewritten to range over node.fingers): len(v), len(v.f)
+	var lens []string
+	ast.Inspect(decl, func(n ast.Node) bool {
+		id, ok := n.(*ast.Ident)
+		if !ok || id.Name == "_" {
+			return true
+		}
+		o, ok := u.Pkg.Info.Defs[id].(*types.Var)
+		if !ok || o.IsField() {
+			return true
+		}
+		t := types.Unalias(o.Type())
+		if _, isSl := t.Underlying().(*types.Slice); isSl {
+			lens = append(lens, "expr:len("+id.Name+")")
+		}
+		if pt, isP := t.Underlying().(*types.Pointer); isP {
+			if st, isS := types.Unalias(pt.Elem()).Underlying().(*types.Struct); isS {
+				for i := 0; i < st.NumFields(); i++ {
+					if _, isSl := st.Field(i).Type().Underlying().(*types.Slice); isSl {
+						lens = append(lens, "expr:len("+id.Name+"."+st.Field(i).Name()+")")
+					}
+				}
+			}
+		}
+		return true
+	})
+	sort.Strings(lens)
+	if len(lens) > 6 {
+		lens = lens[:6]
+	}
+	names = append(names, lens...)
 	scratch, err := os.MkdirTemp("", "govc-repair-")
 	if err != nil {
 		return res
